@@ -95,6 +95,72 @@ CLAIMED.update({
     ),
 })
 
+CLAIMED.update({
+    "C01": dict(
+        category="other",
+        text="Structural necessary conditions of 'the voltage step solves the discretised cable equation': the solve "
+             "indexer's accessors agree (as affine forms in symbolic per-branch counts) with the writer of the padded "
+             "layout; contribution tables of both implicit back ends, extracted by abstract interpretation of the "
+             ".at[].add/set program, equal the backward-Euler matrix rows; the four elimination steps are Gaussian row "
+             "operations (exact identities); level schedule, branch-point ends, scheme formulas (bwd/CN/fwd), "
+             "solver_kwargs binding, conductance roles/forms, dimension of the sparse system, refusal guards. Does not "
+             "decide numerical stability or the third-party tridiagonal kernels.",
+        design_ref="DESIGN.md §3 C01",
+        note="Trusted: python ast; tridiax kernels; role names of the solver's parameters; numerical claims (backward "
+             "error, uniqueness) are NOT decided.",
+        technique="abstract interpretation of array programs to contribution tables + exact algebra + ordering rules",
+    ),
+    "C06": dict(
+        category="other",
+        text="Transitive write set of integrate over the resolved call graph with freshness/alias tracking is within "
+             "{jaxnodes, jaxedges}; no mutation of arguments or mutable defaults; no Python control flow / numpy / "
+             "scalar conversion on traced values in the functions reachable from the scan; RNG only in connect.py; "
+             "nested checkpoint scan threads carry/inputs/outputs correctly and integrate pads at the end. Does not "
+             "decide round-off level differences.",
+        design_ref="DESIGN.md §3 C06",
+        note="Trusted: python ast; JAX hands fresh pytrees to scanned functions; names of traced parameters (seed list).",
+        technique="effect (write-set) and alias analysis over the call graph + tracer-taint analysis",
+    ),
+    "C07": dict(
+        category="other",
+        text="Per-path equality of the scan length behind the returned state and the number of returned steps; the "
+             "scan body reaches Module.step only through step_fn with the same settings; init_fn hands back given "
+             "states unchanged; initial recording and scan share one state; recs layout; padding position.",
+        design_ref="DESIGN.md §3 C07",
+        note="Trusted: python ast; determinism (C06). Equality of numbers is not decided.",
+        technique="provenance terms per control-flow path + call-argument role checks",
+    ),
+    "C09": dict(
+        category="other",
+        text="Index spaces and pre/post roles of every gather in the synapse update/current code; area conversion, "
+             "linearisation voltage and scatter on the post side; secant linearisation normal form and accumulation "
+             "signs agree with the channel code; additive scatter; type index == position in the synapse list; "
+             "trainable synapse parameters/states scattered after E->S conversion.",
+        design_ref="DESIGN.md §3 C09",
+        note="Trusted: python ast; pandas groupby(sort=False) order; scatter_add commutativity up to round-off.",
+        technique="index-space typing + def-use role provenance + exact algebra on extracted snippets",
+    ),
+    "C11": dict(
+        category="other",
+        text="Row-selector provenance of every store into the base tables from view-callable methods (in-view rows, "
+             "listed structural sites with their guards); selection funnels through _at_nodes/_at_edges with "
+             "scope-dependent columns; slice range; dense re-ranking keys; both-ends rule for edges; loc scope.",
+        design_ref="DESIGN.md §3 C11",
+        note="Trusted: python ast; pandas isin/rank/loc semantics; value-level index-form handling not decided.",
+        technique="row-selector provenance (def-use terms) + structural rules on the selection API",
+    ),
+    "C20": dict(
+        category="other",
+        text="Mixed-radix (stride) typing of the pre/post row layouts with symbolic population sizes (reshape/T/ravel "
+             "must regroup with symbolically equal extents); length case split {0,1,2,3} of the number of "
+             "connections; guarded stacking; pre/post site roles; positional lookups on view arrays with global "
+             "indices are rejected.",
+        design_ref="DESIGN.md §3 C20",
+        note="Trusted: python ast; pandas groupby().sample order; every cell has branch 0/comp 0; random distribution not decided.",
+        technique="symbolic layout (stride) typing + finite length case split + role provenance",
+    ),
+})
+
 NOT_APPLICABLE = {
 }
 
